@@ -220,6 +220,14 @@ class StmtMixin:
                     self.oblige(st, "safety", t, z3.Select(base.m, k), "KeyError in del")
                     self.assign_to(t.value, VDict(base.ty, z3.Store(base.m, k, z3.BoolVal(False)), base.a, base.c - 1), st)
                     continue
+                if isinstance(base, VList) and not isinstance(t.slice, ast.Slice):
+                    # del L[i]: the elements after position i move down by one (in place: aliases see it)
+                    idx = self.num(self.ev(t.slice, st), t, st)
+                    i = self.norm_index(base, idx, t, st)
+                    j = z3.Int(fresh_name("dj"))
+                    arr = z3.Lambda([j], z3.If(j < i, z3.Select(base.a, j), z3.Select(base.a, j + 1)))
+                    self.mutate(t.value, VList(base.ety, base.n - 1, arr), st)
+                    continue
             self.unsupported(s, "del form")
         return [(st, None)]
 
